@@ -40,10 +40,17 @@ type Scen struct {
 	OnTermEx string
 	NInv     int
 	SlowRt   bool // the runtime takes 300 ms to answer (so that an extension's fault lands before the response)
+	// PhaseOf, if set, names the World.Phase in force from invocation i (1-based) on: faults carry a Phase
+	// and strike the first process of their program launched in it (histories of several faulty generations)
+	PhaseOf func(i int) string
+	FailAt  int // overrides FailingInvocation (faults of later phases count invocations per process)
 }
 
 func (s Scen) Name() string {
 	n := fmt.Sprintf("ext=%d fault=%s rtTerm=%s exTerm=%s", s.NExt, s.F, orDie(s.OnTermRt), orDie(s.OnTermEx))
+	for _, m := range s.More {
+		n += " then[" + m.Phase + "]=" + m.String()
+	}
 	if s.SlowRt {
 		n += " slowRuntime"
 	}
@@ -233,6 +240,9 @@ func (s Scen) Body(cfg *stack.Config, devRegion func(i int) bool) func() {
 			if devRegion != nil {
 				sched.Region(devRegion(i + 1))
 			}
+			if s.PhaseOf != nil {
+				w.Phase = s.PhaseOf(i + 1)
+			}
 			w.Invoke(Echo(i), nil)
 			vtime.Sleep(500 * time.Millisecond)
 		}
@@ -242,6 +252,9 @@ func (s Scen) Body(cfg *stack.Config, devRegion func(i int) bool) func() {
 
 // FailingInvocation returns the 1-based index of the invocation the fault is expected to hit.
 func (s Scen) FailingInvocation() int {
+	if s.FailAt != 0 {
+		return s.FailAt
+	}
 	if s.F == nil {
 		return 0
 	}
